@@ -286,7 +286,7 @@ def _path_job(prefix):
     except BaseException as e:  # pragma: no cover
         return json.dumps({"alternatives": [], "records": [], "dropped": [], "inlined": [], "called": [],
                            "outcome": None, "unsupported": [], "solver": 0.0,
-                           "errors": [f"worker failure {type(e).__name__}: {str(e)[:300]}\n" + traceback.format_exc(limit=8)]})
+                           "errors": [f"worker failure {type(e).__name__}: {str(e)[:300]}\n" + traceback.format_exc(limit=-10)]})
 
 
 def _path_job_inner(prefix):
@@ -305,7 +305,7 @@ def _path_job_inner(prefix):
         out["unsupported"].append("recursion limit in symbolic execution")
         return out
     except Exception as e:  # checker bug: reported, never a verdict
-        out["errors"].append(f"{type(e).__name__}: {e}\n" + traceback.format_exc(limit=8))
+        out["errors"].append(f"{type(e).__name__}: {e}\n" + traceback.format_exc(limit=-10))
         return out
     out["alternatives"] = path.alternatives
     out["dropped"] = sorted(path.dropped)
